@@ -679,7 +679,7 @@ theorem collectTags_swap_eq (pre post : List BTree) (a b : BTree) (ha : a.dir.ki
 
 mutual
   /-- a tree without Path directives does not change the state of `collectPaths` -/
-  theorem pathsTree_noPath : ∀ (t : BTree) (anc : List BDir) (last : Option Nat),
+  theorem pathsTree_noPath : ∀ (t : BTree) (anc : List BDir) (last : List Nat),
       allT (fun d => d.kind != .Path) t = true → pathsTree anc t last = .ok last
     | .node d kids, anc, last, h => by
       rw [allT, Bool.and_eq_true] at h
@@ -690,7 +690,7 @@ mutual
           have := h.1; simpa using this
         simp only [this, Bool.false_eq_true, if_false]
         exact pathsForest_noPath kids (d :: anc) last h.2
-  theorem pathsForest_noPath : ∀ (ts : List BTree) (anc : List BDir) (last : Option Nat),
+  theorem pathsForest_noPath : ∀ (ts : List BTree) (anc : List BDir) (last : List Nat),
       allF (fun d => d.kind != .Path) ts = true → pathsForest anc ts last = .ok last
     | [], anc, last, _ => pathsForest_nil anc last
     | t :: r, anc, last, h => by
@@ -700,7 +700,7 @@ mutual
 end
 
 theorem pathsForest_swap_noPath (pre post : List BTree) (a b : BTree)
-    (ha : allT (fun d => d.kind != .Path) a = true) (hb : allT (fun d => d.kind != .Path) b = true) (last : Option Nat) :
+    (ha : allT (fun d => d.kind != .Path) a = true) (hb : allT (fun d => d.kind != .Path) b = true) (last : List Nat) :
     pathsForest [] (pre ++ a :: b :: post) last = pathsForest [] (pre ++ b :: a :: post) last := by
   rw [pathsForest_append, pathsForest_append]
   congr 1
@@ -715,7 +715,7 @@ theorem isHTTP_not_tag {k : Kind} (h : isHTTP k = true) : k ≠ .TAG := by
 stage are assumed to agree (`pathsForest_swap_noPath` when the blocks hold no Path directive) -/
 theorem swap_methods_rrel (banned : List Kind) (pre post : List BTree) (a b : BTree)
     (ha : isMethodBlock a = true) (hb : isMethodBlock b = true) (hpre : pre ≠ [])
-    (hpaths : (pathsForest [] (pre ++ a :: b :: post) none).isOk = (pathsForest [] (pre ++ b :: a :: post) none).isOk) :
+    (hpaths : (pathsForest [] (pre ++ a :: b :: post) []).isOk = (pathsForest [] (pre ++ b :: a :: post) []).isOk) :
     RRel Sim (compile banned (pre ++ a :: b :: post)) (compile banned (pre ++ b :: a :: post)) := by
   have hka : a.dir.kind ≠ .TAG := by
     simp only [isMethodBlock, Bool.and_eq_true] at ha; exact isHTTP_not_tag ha.1
@@ -736,13 +736,13 @@ theorem swap_methods_rrel (banned : List Kind) (pre post : List BTree) (a b : BT
     | ok u =>
       cases u
       rw [h2.1 ht, ok_bind, ok_bind, headCheck_swap pre post a b hpre]
-      cases hp1 : pathsForest [] (pre ++ a :: b :: post) none with
+      cases hp1 : pathsForest [] (pre ++ a :: b :: post) [] with
       | error e =>
-        cases hp2 : pathsForest [] (pre ++ b :: a :: post) none with
+        cases hp2 : pathsForest [] (pre ++ b :: a :: post) [] with
         | error e' => trivial
         | ok l => rw [hp1, hp2] at hpaths; cases hpaths
       | ok l =>
-        cases hp2 : pathsForest [] (pre ++ b :: a :: post) none with
+        cases hp2 : pathsForest [] (pre ++ b :: a :: post) [] with
         | error e' => rw [hp1, hp2] at hpaths; cases hpaths
         | ok l' =>
           rw [ok_bind, ok_bind]
